@@ -290,18 +290,24 @@ def rule_table(N, s0, xk, X0, jit, yk, p1, p2, ym):
 SIZE_LADDER = [2 ** p + e for p in range(10, 19) for e in (-1, 0, 1, 2, 3)]
 
 
-def big_case(rng, N):
+def big_case(rng, N, yks=(0, 0, 1, 2, 2, 3, 3, 4, 5)):
     """a table of N points by rule, queried on long spans: the whole domain, spans of 2^p + {-1..2} segments, splits next to 2^p segments"""
     s0 = rng.randrange(1, 2 ** 31); xk = rng.choice([-3, -3, -6, -10, 0, 4])
     X0 = rng.choice([0, 0, -4 * N, -8 * (N - 1), 2 ** 24, -2 ** 26, 8 * rng.randrange(1, 1000)])
     jit = 1 if rng.random() < 0.7 else 0
-    yk = rng.choice([0, 0, 1, 2, 2, 3, 3, 4, 5])
+    yk = rng.choice(yks)
     if yk == 0: p1, p2 = rng.choice([-1, 1]) * rng.randint(1, 1000), 0
     elif yk == 1: p1, p2 = rng.randint(-1000, 1000), rng.choice([1, -1, 3])
     elif yk == 2: p1, p2 = rng.randint(-100, 100), rng.randint(1, 50)
     elif yk == 3: p1, p2 = rng.randint(-100, 100), rng.randint(1, 8)
     elif yk == 4: p1, p2 = rng.randint(-20, 20), rng.choice([-1, 1]) * rng.randint(1, 5)
     else: p1, p2 = rng.randint(-3, 3), rng.randrange(N)
+    spike_spans = []
+    lad = [L for L in SIZE_LADDER if L <= N - 3]
+    if yk == 5 and lad:
+        # one outstanding value, placed 2^p + {-1..3} knots after the start of a long span (and of spans on the lower rungs of the ladder)
+        L = rng.choice(lad[-5:]); i0 = rng.randrange(0, N - 2 - L); p2 = i0 + L
+        spike_spans = [(i0, rng.randint(p2, N - 2))] + [(p2 - L2, rng.randint(p2, min(N - 2, p2 + 50))) for L2 in rng.sample(lad, min(2, len(lad))) if p2 - L2 >= 0]
     ym = rng.choice([-4, 0, -20, 10])
     r = rng.random()
     xd, fd = (-1.0, -1.0) if r < 0.6 else ((2.0 ** rng.randint(-20, 20), -1.0) if r < 0.75 else ((-1.0, 10 ** rng.uniform(-6, 6)) if r < 0.9 else (10 ** rng.uniform(-3, 3), 10 ** rng.uniform(-6, 6))))
@@ -311,7 +317,7 @@ def big_case(rng, N):
         if knot is None: knot = rng.random() < 0.5
         return xs[i] if knot else inside(rng, xs, i)
     ops = pref_ops(rng)
-    spans = [(0, N - 2)]
+    spans = [(0, N - 2)] + spike_spans
     lad = [L for L in SIZE_LADDER if L <= N - 2]
     for L in rng.sample(lad, min(len(lad), 3)) + ([max(lad)] if lad else []):
         i = rng.randrange(0, N - 1 - L); spans.append((i, i + L))
@@ -323,11 +329,13 @@ def big_case(rng, N):
         cand = [i + L for L in SIZE_LADDER if i + L < k] + [k - L for L in SIZE_LADDER if k - L > i]
         m = pt(rng.choice(cand)) if cand and rng.random() < 0.7 else pt(rng.randint(i, k))
         m = min(max(m, a), b)
-        r = rng.random()
-        if r < 0.35: ops += [f"A {hx(a)} {hx(m)} {hx(b)}", f"B {hx(a)} {hx(b)}"]
-        elif r < 0.6: ops += [rng.choice([f"W {hx(a)} {hx(b)}", f"W {hx(b)} {hx(a)}"]), f"A {hx(b)} {hx(a)} {hx(m)}"]
-        elif r < 0.8: ops += [f"E {hx(a)} {hx(b)} {NS}", f"A {hx(a)} {hx(m)} {hx(b)}"]
-        else: ops += [f"N {hx(a)} {hx(b)}", f"N {hx(a)} {hx(m)}", f"N {hx(m)} {hx(b)}", f"m {hx(a)} {hx(b)}", f"M {hx(a)} {hx(b)}"]
+        # one or two integral operations and one extremum operation on every span
+        integ = [[f"A {hx(a)} {hx(m)} {hx(b)}"], [f"A {hx(b)} {hx(a)} {hx(m)}"], [f"W {hx(a)} {hx(b)}"], [f"W {hx(b)} {hx(a)}"],
+                 [f"N {hx(a)} {hx(b)}", f"N {hx(a)} {hx(m)}", f"N {hx(m)} {hx(b)}"]]
+        for blk in rng.sample(integ, rng.choice([1, 2])): ops += blk
+        ops += rng.choice([[f"E {hx(a)} {hx(b)} {NS}"], [f"B {hx(a)} {hx(b)}"], [f"m {hx(a)} {hx(b)}", f"M {hx(a)} {hx(b)}"]])
+        if (i, k) in spike_spans:      # the outstanding value is the maximum under one sign of the prefactor and the minimum under the other
+            ops += [f"X {hx(-1.0)}", rng.choice([f"E {hx(a)} {hx(b)} {NS}", f"B {hx(a)} {hx(b)}"])]
         if rng.random() < 0.3: ops += pref_ops(rng, True)
     j = rng.randrange(N - 1); h = xs[j + 1] - xs[j]
     ops += [f"Z {NS}", "g", "G", f"U {hx(xs[max(0, j - 1)])} {hx(xs[j] + h * rng.uniform(0.3, 0.7))} {hx(h / 16.0)}", f"I {hx(inside(rng, xs, j))}"]
@@ -550,9 +558,9 @@ def generate(rng, tier):
     for _ in range(2500 if big else 150): cs.append(session_1d(rng, big))
     for _ in range(600 if big else 40): cs.append(session_2d(rng, big))
     # long tables: a size ladder across the powers of two up to 2^17 (2^18 in the thorough tier); every run has tables beyond 2^16 and 2^17 points
-    if big: sizes = [rng.choice(SIZE_LADDER) + rng.choice([0, 0, 1, 2, 7, 100]) for _ in range(10)] + [65536 + rng.randint(3, 6000) for _ in range(3)] + [131072 + rng.randint(3, 9000) for _ in range(2)] + [262144 + rng.randint(3, 9000)]
-    else: sizes = [rng.choice([1025, 4098, 16387, 32770]), 65536 + rng.randint(3, 6000), 131072 + rng.randint(3, 9000)]
-    for N in sizes: cs.append(big_case(rng, N))
+    if big: sizes = [rng.choice(SIZE_LADDER) + rng.choice([0, 0, 1, 2, 7, 100]) for _ in range(30)] + [65536 + rng.randint(3, 6000) for _ in range(8)] + [131072 + rng.randint(3, 9000) for _ in range(5)] + [262144 + rng.randint(3, 9000) for _ in range(2)]
+    else: sizes = [rng.choice([1025, 4098, 16387, 32770]), 65536 + rng.randint(3, 6000), 131072 + rng.randint(3, 9000), 65536 + rng.randint(10, 6000)]
+    for k, N in enumerate(sizes): cs.append(big_case(rng, N, ((2, 3, 3, 4) if k == 1 else (5,) if k == 3 else (0, 0, 1, 2, 2, 3, 3, 4, 5)) if not big else (0, 0, 1, 2, 2, 3, 3, 4, 5, 5)))
     return cs
 
 
@@ -845,6 +853,12 @@ def pred_1d(c, d, vals):
     isc = d["aux"].iscale if d.get("long") else (lambda cc, a, b: int_scale(xs, ys, h, cc, a, b))
     def islack(cc, a, b): return 64 * EPS * isc(cc, a, b) + 1e-300
     def in_dom(x): return xs[0] <= x <= xs[-1]
+    def knot_check(kind, v, a, b, cc):
+        """Local_Minimum (Local_Maximum) is the smallest (largest) of a set that holds prefactor * f_i for every tabulated abscissa inside the limits: exact"""
+        kn = [cc * ys[i] for i in range(N) if a <= xs[i] <= b]
+        if kn and kind == "m" and v > min(kn): return [("m:above-inside-knot", f"Local_Minimum({a!r},{b!r}) = {v!r} under prefactor {cc!r} lies above the tabulated value {min(kn)!r} the curve takes inside the limits")]
+        if kn and kind == "M" and v < max(kn): return [("M:below-inside-knot", f"Local_Maximum({a!r},{b!r}) = {v!r} under prefactor {cc!r} lies below the tabulated value {max(kn)!r} the curve takes inside the limits")]
+        return []
     k = 0
     for q, cc, n, sc in walk(d):
         o = vals[k:k + n]; k += n
@@ -885,6 +899,7 @@ def pred_1d(c, d, vals):
             a, b = q[1], q[2]; lo = min(cc * min(ys), cc * max(ys)); hi = max(cc * min(ys), cc * max(ys))
             sl = 2 * max(vslack(a, cc), vslack(b, cc)) if in_dom(a) and in_dom(b) else math.inf
             if in_dom(a) and in_dom(b) and not (lo - sl <= o[0] <= hi + sl): out.append((op + ":outside-global", f"Local extremum {o[0]!r} on [{a!r},{b!r}] outside the global range [{lo!r},{hi!r}]"))
+            out += knot_check(op, o[0], a, b, cc)
         elif op == "Q":
             a, b = q[1], q[2]; i12, i21 = o[0], o[1]; g = o[2:]
             if i21 != -i12: out.append(("Q:antisymmetric", f"Integrate({b!r},{a!r}) = {i21!r} is not the negative of Integrate({a!r},{b!r}) = {i12!r}"))
@@ -907,6 +922,7 @@ def pred_1d(c, d, vals):
         elif op == "B":
             a, b = q[1], q[2]; I, mn, mx = o; L = b - a; sl = islack(cc, a, b) + 8 * EPS * (abs(mn) + abs(mx)) * L
             zz = "" if in_dom(a) and in_dom(b) else "-zone"
+            out += knot_check("m", mn, a, b, cc) + knot_check("M", mx, a, b, cc)
             if not (mn * L - sl <= I <= mx * L + sl): out.append(("B:bounded" + zz, f"Integrate({a!r},{b!r}) = {I!r} is not between Local_Minimum*length = {mn * L!r} and Local_Maximum*length = {mx * L!r}"))
         elif op == "U":
             a, x, dd = q[1], q[2], q[3]; ip, im, fx, d2 = o; two_d = (x + dd) - (x - dd)
